@@ -290,7 +290,7 @@ class Array:
         if len(self.data) % self._dtype.bitlength != 0:
             raise ValueError(f"Cannot extend Array as its data length ({len(self.data)} bits) is not a multiple of the format length ({self._dtype.bitlength} bits).")
         if isinstance(iterable, Array):
-            if self._dtype.name != iterable._dtype.name or self._dtype.length != iterable._dtype.length:
+            if self._dtype.name != iterable._dtype.name or self._dtype.length != iterable._dtype.length or self._dtype.scale != iterable._dtype.scale:
                 raise TypeError(
                     f"Cannot extend an Array with format '{self._dtype}' from an Array of format '{iterable._dtype}'.")
             # No need to iterate over the elements, we can just append the data
